@@ -14,6 +14,19 @@ pub struct Case {
     pub values: Vec<V>,
 }
 
+/// The same round trip, made right after a call on the same thread that the library refused half
+/// way (an encoder / decoder must not carry anything over from a failed call).
+#[derive(Clone, Debug, Serialize, Deserialize)]
+pub struct AfterRefusal {
+    pub kind: u8,
+    pub case: Case,
+}
+
+pub fn eval_after_refusal(c: &AfterRefusal) -> Verdict {
+    ra::disturb(c.kind);
+    eval(&c.case)
+}
+
 fn has_empty_key(v: &V) -> bool {
     let mut found = false;
     ra::walk(v, &mut |n| {
@@ -155,6 +168,7 @@ pub fn spec() -> PropSpec {
         ],
         checks: vec![
             PropCheck::new("roundtrip", |_| gen::amf_values(AmfCfg::LIB_ANY, 6).prop_map(|values| Case { values }).boxed(), 200_000, 5_000_000, eval),
+            PropCheck::new("roundtrip-after-a-refused-call", |_| (1u8..6, gen::amf_values(AmfCfg::LIB_ANY, 4)).prop_map(|(kind, values)| AfterRefusal { kind, case: Case { values } }).boxed(), 20_000, 500_000, eval_after_refusal),
             PropCheck::new("empty-name", |_| with_empty_key(), 5_000, 100_000, eval),
         ],
     }
